@@ -200,6 +200,42 @@ impl<T: G> G for core::ops::Range<T> {
     }
 }
 
+/// Key whose ordering ignores part of what it encodes (ordered by `.0` only).
+#[derive(Clone, Copy, Debug)]
+pub struct PKey(pub u8, pub u8);
+impl PartialEq for PKey {
+    fn eq(&self, o: &Self) -> bool {
+        self.0 == o.0
+    }
+}
+impl Eq for PKey {}
+impl PartialOrd for PKey {
+    fn partial_cmp(&self, o: &Self) -> Option<core::cmp::Ordering> {
+        Some(self.cmp(o))
+    }
+}
+impl Ord for PKey {
+    fn cmp(&self, o: &Self) -> core::cmp::Ordering {
+        self.0.cmp(&o.0)
+    }
+}
+impl Encode for PKey {
+    fn encode_to<W: Output + ?Sized>(&self, dest: &mut W) {
+        dest.push_byte(self.0);
+        dest.push_byte(self.1);
+    }
+}
+impl Decode for PKey {
+    fn decode<I: Input>(input: &mut I) -> Result<Self, Error> {
+        Ok(PKey(input.read_byte()? & 3, input.read_byte()?))
+    }
+}
+impl G for PKey {
+    fn g(r: &mut Rng, _d: u32) -> Self {
+        PKey(r.below(4) as u8, r.byte())
+    }
+}
+
 #[cfg(feature = "derive")]
 mod derived {
     use super::*;
@@ -300,7 +336,8 @@ fn decode_line<T: Encode + Decode>(bytes: &[u8]) -> String {
     // a panic of the library under one configuration shows up as an outcome, not as a crash
     let part = |r: &Result<T, Error>, c: usize| match r {
         Ok(v) => format!("ok:{}:{}", c, hex(&v.encode())),
-        Err(_) => "err".to_string(),
+        // where the input stands after a failed decode is observable behaviour too
+        Err(_) => format!("err@{}", c),
     };
     let a = std::panic::catch_unwind(|| {
         let mut s = bytes;
@@ -509,6 +546,7 @@ fn main() {
         VecDeque<u32>, VecDeque<String>, LinkedList<u16>, BinaryHeap<u32>, BTreeMap<u32, String>, BTreeSet<u16>, BTreeMap<u8, Vec<u16>>,
         String, [u8; 4], [u16; 7], [u32; 5], [bool; 3], [String; 2], Box<u32>, Box<Vec<u8>>, Rc<String>, Arc<[u16; 4]>, Box<[u32; 6]>,
         core::time::Duration, core::ops::Range<u32>, core::num::NonZeroU16, parity_scale_codec::OptionBool,
+        BTreeMap<PKey, u8>, BTreeSet<PKey>, Vec<PKey>, BinaryHeap<PKey>,
     );
     if sel.fam.as_deref().map_or(true, |f| f == "append") {
         let mut h: u64 = 0xcbf2_9ce4_8422_2325;
